@@ -41,7 +41,7 @@ CONSTANTS Legacy, SpecMut
 
 AllLegacy == {"set_node", "unsubscriptable", "meta_dunder", "marker", "duck", "counter_val"}
 ASSUME Legacy \subseteq AllLegacy
-ASSUME SpecMut \in {"none", "no_guard", "union_drops_last", "abc_too_narrow"}
+ASSUME SpecMut \in {"none", "no_guard", "union_drops_last", "abc_too_narrow", "meta_leaf_only"}
 \* the named repairs of the intended design (each is one root cause of the faithful one)
 RC_SetNode    == "set_node" \in Legacy        \* the Set node of the automaton carries the BUILTIN set as hint factory
 RC_Unsubscr   == "unsubscriptable" \in Legacy \* unsubscriptable subclasses of builtin views (odict_keys) are subscripted
@@ -55,7 +55,11 @@ XSeqCls  == {"range", "UMSeq", "MyList", "DSeq"}
 XCollCls == {"USet", "USetNe", "odict_keys", "odict_values"}
 XViewCls == {"odict_items"}
 XMapCls  == {"UMMap", "UMapNe", "ChainMap", "mappingproxy", "DMap"}
-XAtomCls == {"E", "func", "object", "USized", "UCont", "URev", "UItor"}
+\* E: member of a plain Enum;  E2: member of an Enum whose metaclass DERIVES from EnumMeta (Django's ChoicesType
+\* pattern);  MC1 / MC2: instance of an ordinary class whose metaclass M1 defines __len__ / __iter__ / __contains__
+\* and advertises them in __dir__ (MC1), resp. whose metaclass M2 merely INHERITS them from M1 (MC2).  For all four the
+\* collection dunders exist on the CLASS OBJECT only: the instances are plain objects, never collections.
+XAtomCls == {"E", "E2", "MC1", "MC2", "func", "object", "USized", "UCont", "URev", "UItor"}
 XCls == XSeqCls \cup XCollCls \cup XViewCls \cup XMapCls \cup XAtomCls
 
 ParentX(c) == CASE c = "odict_keys" -> "dict_keys" [] c = "odict_values" -> "dict_values"
@@ -84,7 +88,7 @@ AbcsX(c) ==
     [] c = "UCont"  -> {"Container"}
     [] c = "URev"   -> {"Iterable", "Reversible"}
     [] c = "UItor"  -> {"Iterable", "Iterator"}
-    [] c \in {"E", "object"} -> {}
+    [] c \in {"E", "E2", "MC1", "MC2", "object"} -> {}
     [] OTHER -> Abcs(c) \ {"Hashable"}
 
 \* the recursion placeholder BeartypeInferHintContainerRecursion
@@ -260,12 +264,20 @@ InstMethods(c) ==
     [] c = "bool"   -> {"__and__", "__or__", "__xor__", "__sub__"} \cup CmpG       \* no start label among them
     [] c = "NoneType" -> CmpG
     [] OTHER -> {}
-\* provided by the METACLASS only, but listed by dir(cls)  (EnumType.__dir__)
-MetaMethods(c) == IF c = "E" THEN {"__contains__", "__getitem__", "__iter__", "__len__"} ELSE {}
+\* provided by the METACLASS CHAIN only, but listed by dir(cls)  (EnumType.__dir__, M1.__dir__):
+\*   MetaOwn: defined by type(cls) itself          MetaInh: inherited by type(cls) from a parent metaclass
+EnumMetaG == {"__contains__", "__getitem__", "__iter__", "__len__"}
+MetaOwn(c) == CASE c = "E" -> EnumMetaG [] c = "MC1" -> Coll3 [] OTHER -> {}
+MetaInh(c) == CASE c = "E2" -> EnumMetaG [] c = "MC2" -> Coll3 [] OTHER -> {}
+MetaMethods(c) == MetaOwn(c) \cup MetaInh(c)
+\* the methods the automaton runs on: those of the INSTANCES (some class of cls.__mro__ defines them); never a
+\* name that only the metaclass chain provides, at whatever depth of that chain.
+\* spec mutant "meta_leaf_only": only the names in type(cls).__dict__ are excluded
 MethodsOf(c) == InstMethods(c) \cup (IF RC_MetaDunder THEN MetaMethods(c) ELSE {})
+                               \cup (IF SpecMut = "meta_leaf_only" THEN MetaInh(c) ELSE {})
 \* classes for which the tables above are claimed (checked against the real classes by the driver)
 AbcPathCls == {"USeq", "DSeq", "UColl", "UMap", "UIter", "gen", "dict_items", "odict_items", "range", "USet", "USetNe",
-               "UMSeq", "UMMap", "UMapNe", "DMap", "mappingproxy", "USized", "UCont", "URev", "UItor", "USizedIter", "E", "A", "B",
+               "UMSeq", "UMMap", "UMapNe", "DMap", "mappingproxy", "USized", "UCont", "URev", "UItor", "USizedIter", "E", "E2", "MC1", "MC2", "A", "B",
                "object", "bool", "NoneType"}
 
 \* the automaton's path per class, evaluated once
